@@ -30,6 +30,12 @@ def run_main(chk, replay=None):
             chk.nontrivial(("s", e["chain"], e["k"], e["dim"]))
     chk.cov["evaluations"] = len(rows)
     chk.sample_each(rows, ACTIONS)
+    # F13 (known finding): refinement steps on grids in the subnormal range whose result is not non-decreasing / does not start at zero
+    f13 = [e for e in rows if e["e"] == "RefStep" and e.get("tiny") == 1 and (e["mono"] != 1 or e["first0"] != 1)]
+    chk.cov["subnormal_grid_steps_not_monotone"] = len(f13)
+    if f13:
+        chk.violation("C07:subnormal-grid", trace, "a %s grid with boundaries in the subnormal range came out of vegas_refine_pdf not non-decreasing (or below zero): %d steps, first %s"
+                      % (f13[0]["T"], len(f13), str({k: f13[0][k] for k in ("src", "chain", "k", "B", "alpha100")})))
     ok, matched, res = chk.validate("Trace_C07", trace, need_actions=ACTIONS)
     if not ok:
         bad = rows[matched] if matched < len(rows) else None
